@@ -20,7 +20,7 @@ META = {
         "relation chains kept below 150 operations (deeper chains hit the interpreter recursion limit: inconclusive, not a verdict)",
     ],
     "floors": {
-        "quick": {"time_triples_compared": 20000, "implicit_links": 5000, "explicit_JOINED_END": 200, "explicit_JOINED_START": 200,
+        "quick": {"flattened_then_nested": 2500, "time_triples_compared": 20000, "implicit_links": 5000, "explicit_JOINED_END": 200, "explicit_JOINED_START": 200,
                   "eq_multi": 200, "unrolled_programs": 1000, "registry_reassignments": 800, "unrolled_then_nested": 3000},
         "thorough": {"time_triples_compared": 200000, "implicit_links": 50000, "explicit_JOINED_END": 2000, "eq_multi": 2000},
     },
@@ -80,6 +80,25 @@ def check_program(prog: Dict[str, Any], acc: Acc):
                 outer.add(modified)
                 acc.count("unrolled_then_nested")
                 common.compare_times(built2, acc, "unrolled-nested", unrolled_model, case, circuit=outer)
+                # ... and so does the FLATTENED circuit (flatten turns relations to sub-circuits into group relations of any type): nested
+                # into an empty circuit it reports the schedule it reports itself (seeded change C01-r12: a copied group link fell back to
+                # FOLLOWED_BY).  Differential only: what flatten itself may change is C04 / C11 territory.
+                try:
+                    flat = modified.flatten()
+                except RecursionError:
+                    flat = None
+                if flat is not None:
+                    ops_f = flat.operations
+                    rec_f = sorted(common.records_lib(ops_f, snap.shadow_times(ops_f)))
+                    outer2 = DeclarativeCircuit()
+                    outer2.add(flat)
+                    ops_n = outer2.operations
+                    rec_n = sorted(common.records_lib(ops_n, snap.shadow_times(ops_n)))
+                    acc.count("flattened_then_nested")
+                    if rec_f != rec_n:
+                        only_a, only_b = snap.multiset_diff(rec_f, rec_n)
+                        acc.finding("timing/flattened-nested", "a flattened circuit nested into an empty circuit does not report the schedule the flattened circuit reports", case,
+                                    {"only_flattened": only_a[:3], "only_nested": only_b[:3]})
     memo = memo_shadow.drain()
     acc.count("memo_queries", memo["queries"])
     acc.count("memo_outermost_compared", memo["outermost"])
